@@ -467,3 +467,82 @@ Proof.
 Qed.
 
 End Link.
+
+(* ---------- the evaluator's dispatcher hands a search segment to by_search ---------- *)
+Lemma dispatch_search lit re_search nstr vstr kw_handler self sg_next rqp segs i us sub sub2
+      inv m attr term n c :
+  nth_error segs i = Some (PSeg (Some TSearch, ASearch inv m attr term) us sub sub2) ->
+  dispatch lit re_search nstr vstr kw_handler self sg_next rqp segs i (RNode n) c =
+  by_search lit re_search nstr vstr (rqp sub) inv m attr term (RNode n) c.
+Proof.
+  intros H. unfold dispatch. rewrite H. cbn [seg_es seg_us seg_sub]. destruct us as [uty ua].
+  cbn [is_ty is_stype]. destruct (0 <? i); reflexivity.
+Qed.
+
+(* the inversion clause for a search segment evaluated by the dispatcher of the
+   query evaluator, whatever the rest of the path and the drivers around it *)
+Theorem inversion_dispatch lit re_search nstr vstr kw_handler self sg_next rqp segs i us sub sub2
+      m attr term n c cands plain invd segs' :
+  nth_error segs i = Some (PSeg (Some TSearch, ASearch false m attr term) us sub sub2) ->
+  nth_error segs' i = Some (PSeg (Some TSearch, ASearch true m attr term) us sub sub2) ->
+  sc_cands_of nstr vstr (rqp sub) attr term n c = Ok cands ->
+  sc_guard cands = true ->
+  dispatch lit re_search nstr vstr kw_handler self sg_next rqp segs i (RNode n) c = (plain, Done) ->
+  dispatch lit re_search nstr vstr kw_handler self sg_next rqp segs' i (RNode n) c = (invd, Done) ->
+  exists mask,
+    sc_matches lit re_search m term cands = Ok mask /\
+    List.length mask = List.length (sc_items attr n c) /\
+    plain = sc_select mask (sc_items attr n c) /\
+    invd = sc_select (map negb mask) (sc_items attr n c).
+Proof.
+  intros H1 H2 Hc Hg Hp Hi.
+  rewrite (dispatch_search _ _ _ _ _ _ _ _ _ _ _ _ _ _ _ _ _ _ _ H1) in Hp.
+  rewrite (dispatch_search _ _ _ _ _ _ _ _ _ _ _ _ _ _ _ _ _ _ _ H2) in Hi.
+  exact (inversion_doc lit re_search nstr vstr (rqp sub) m attr term n c cands plain invd Hc Hg Hp Hi).
+Qed.
+
+(* ---------- the unguarded statement is false (listed finding F12a) ---------- *)
+Definition sc_demo_lit (s : string) : outcome litres :=
+  Ok (match py_int s with Some z => LVal (PInt z) | None => LFail end).
+Definition sc_demo_re (_ _ : string) : outcome reres := Ok (RMatch false).
+Definition sc_demo_nstr (_ : node) : string := "{..}".
+Definition sc_demo_vstr (_ : list rval) : string := "[..]".
+Definition sc_demo_kw (_ : bool) (_ : keyword) (_ : string) (_ : rval) (_ : ctx) : gen rval := gnil.
+Definition sc_demo_cr (_ : list pseg) (_ : nat) (_ : rval) (_ : ctx) : gen rval := ([], Mut 0 PNone).
+(* _get_required_nodes(data, YAMLPath(attr), 0) by the evaluator model *)
+Definition sc_demo_rq (attr : string) : rval -> ctx -> gen rval :=
+  match prepare (String.length attr + 2) attr with
+  | Ok sub => sc_rq sc_demo_lit sc_demo_re sc_demo_nstr sc_demo_vstr sc_demo_kw sc_demo_cr sub
+  | _ => fun _ _ => gfuel
+  end.
+Definition sc_inf (n : N) : info := mkinfo n None false None.
+Definition sc_leaf (n : N) (v : pyval) : node := NLeaf (sc_inf n) v.
+(* the objects a stream yields, by identity *)
+Definition sc_oids (l : list rval) : list N :=
+  map (fun x => match x with RCoords (RNode n) _ _ _ _ => node_oid n | _ => 0%N end) l.
+
+(* {a: {x: 1, y: 2}} with [a.*=1] and [a.*!=1]: both yield the hash *)
+Definition sc_doc_f12a : node :=
+  NMap (sc_inf 1) [(sc_leaf 2 (PStr "a"),
+                    NMap (sc_inf 3) [(sc_leaf 4 (PStr "x"), sc_leaf 5 (PInt 1));
+                                     (sc_leaf 6 (PStr "y"), sc_leaf 7 (PInt 2))])].
+
+Lemma inversion_doc_refuted :
+  exists cands plain invd,
+    sc_cands_of sc_demo_nstr sc_demo_vstr (sc_demo_rq "a.*") "a.*" "1" sc_doc_f12a root_ctx = Ok cands /\
+    sc_guard cands = false /\
+    by_search sc_demo_lit sc_demo_re sc_demo_nstr sc_demo_vstr (sc_demo_rq "a.*") false MEquals "a.*" "1"
+              (RNode sc_doc_f12a) root_ctx = (plain, Done) /\
+    by_search sc_demo_lit sc_demo_re sc_demo_nstr sc_demo_vstr (sc_demo_rq "a.*") true MEquals "a.*" "1"
+              (RNode sc_doc_f12a) root_ctx = (invd, Done) /\
+    sc_oids plain = [1%N] /\ sc_oids invd = [1%N] /\
+    ~ exists mask, plain = sc_select mask (sc_items "a.*" sc_doc_f12a root_ctx) /\
+                   invd = sc_select (map negb mask) (sc_items "a.*" sc_doc_f12a root_ctx).
+Proof.
+  eexists. eexists. eexists.
+  split; [vm_compute; reflexivity|]. split; [reflexivity|].
+  split; [vm_compute; reflexivity|]. split; [vm_compute; reflexivity|].
+  split; [reflexivity|]. split; [reflexivity|].
+  intros [mask [Hp Hi]]. vm_compute in Hp, Hi.
+  destruct mask as [|[|] r]; try discriminate; destruct r; discriminate.
+Qed.
